@@ -21,7 +21,7 @@ def jobs_for(tier, seed):
     # shortcut paths and rule-directed shapes (W = 2 and 8)
     J += [{"gen": "short", "seed": 7, "part": k, "nparts": 3, "exact": True} for k in range(3)]
     if tier == "quick":
-        J += [{"gen": "dec", "W": 2, "depth": 2, "part": k, "nparts": 8, "sample": 64, "seed": seed} for k in range(8)]
+        J += [{"gen": "dec", "W": 2, "depth": 2, "part": k, "nparts": 8, "sample": 96, "seed": seed} for k in range(8)]
         J += [{"gen": "dec", "W": 2, "depth": 1, "simp": True, "part": 0, "nparts": 1, "sample": 40, "seed": seed},
               {"gen": "short", "simp": True, "seed": 7, "part": 0, "nparts": 1, "sample": 6}]
         J += [{"gen": "solver", "seed": seed, "n": 40}]
@@ -79,7 +79,14 @@ def _damage(ev):
     def survives(n):
         return any(_core(m) == _core(n) and _anns(n) <= _anns(m) for m in rn)
 
-    removed = [n for n in an if any(x[0] in UTAGS for x in n[4]) and not survives(n)]
+    deep_r = {json.dumps(x) for m in rn for x in m[4]}
+    carriers = {}
+    for n in an:
+        for x in n[4]:
+            if x[0] in UTAGS:
+                carriers.setdefault(json.dumps(x), []).append(n)
+    # carriers of every annotation that is lost, or kept on no sub-expression that carried it
+    removed = [n for k, ns in carriers.items() if k not in deep_r or not any(survives(n) for n in ns) for n in ns]
     lost = [x for n in an for x in n[4] if x[0] in RTAGS and json.dumps(x) not in top and json.dumps(_img(x)) not in top]
     return removed, lost
 
@@ -299,7 +306,7 @@ def check(pid, tier, regen=False):
         "validator_selftest_corrupted_events_rejected": n_selftest,
         "exhaustive": False,
         "exhaustive_scopes": "W=2 depth 1: all decorated trees; shortcut/rule list at W=2,8: all decorated trees; "
-                             "W=2 depth 2: seeded 1/%d sample of the base trees, all decorations" % (64 if tier == "quick" else 4),
+                             "W=2 depth 2: seeded 1/%d sample of the base trees, all decorations" % (96 if tier == "quick" else 4),
         "tlc_module": "TraceAnnot.tla",
     }
     R.assumptions = ["TLC evaluates spec/TraceAnnot.tla correctly",
